@@ -73,6 +73,8 @@ def source_hash(extra=""):
 FLAVOURS = {
     # name : (CFLAGS, LDFLAGS)
     "normal": ("", ""),
+    # verification hooks compiled in (guard IMAGED11_VERIF); they stay silent unless IMAGED11_VERIF_TRACE is set
+    "hooks": ("-DIMAGED11_VERIF", ""),
     "asan": ("-O1 -g -fno-omit-frame-pointer -fsanitize=address,undefined -fno-sanitize-recover=all",
              "-fsanitize=address,undefined"),
 }
